@@ -124,7 +124,8 @@ def gen_readers_plan(seed, rng, tier):
         readers.append({"name": f"r{i}",
                         "ops": [rng.choice(["get_raw", "get_raw", "getitem",
                                             "contains", "iter", "subset",
-                                            "get_raw_all", "iter_lookup"])
+                                            "get_raw_all", "iter_lookup",
+                                            "iter_prefix"])
                                 for _ in range(rng.randint(2, 6))],
                         "warm": rng.random() < 0.6})
     faults = []
@@ -635,6 +636,17 @@ def run_readers(plan):
                                         "detail": f"{len(miss)} of "
                                         f"{len(reach)} reachable ids not "
                                         f"listed, e.g. {miss[0].decode()}"})
+                            elif op == "iter_prefix":
+                                # how an abbreviated id is resolved
+                                k = rr.choice([2, 4, 7, 8, 12, 39, 40])
+                                got = list(st.iter_prefix(oid[:k]))
+                                if oid not in got:
+                                    viols.append({
+                                        "sig": "C10/reader-spurious-missing/"
+                                               "iter_prefix",
+                                        "detail": f"{oid.decode()} not among "
+                                        f"the ids with prefix {oid[:k]!r}: "
+                                        f"{got[:3]}"})
                             elif op == "subset":
                                 want = rr.sample(reach, min(len(reach), 5))
                                 got = {o.id for o in st.iterobjects_subset(want)}
